@@ -218,6 +218,43 @@ func saturatingCall(p *Prog, e *Env, call *ssa.Call, self string, depth int) (st
 	return "call to " + sc.Name() + " is not a saturating helper over a non-inflating argument", false
 }
 
+// contextsOf: the environments of fn in each of its calling contexts, up to `levels` call levels above it (an exported
+// function, or one without callers in the library, is its own context).
+func (p *Prog) contextsOf(fn *ssa.Function, levels int) []*Env {
+	if levels == 0 || isExportedAPI(fn) {
+		return []*Env{p.Env(fn)}
+	}
+	var out []*Env
+	for _, cs := range p.Callers[fn] {
+		if !p.Src(cs.Parent()) || cs.Parent() == fn {
+			continue
+		}
+		for _, ce := range p.contextsOf(cs.Parent(), levels-1) {
+			out = append(out, ce.Sub(cs, fn))
+		}
+	}
+	if len(out) == 0 {
+		return []*Env{p.Env(fn)}
+	}
+	return out
+}
+
+// nonInflatingInCallers: v (a value of the unexported step fn) is non-inflating in every calling context of fn.
+func nonInflatingInCallers(p *Prog, fn *ssa.Function, v ssa.Value, self string) (string, bool) {
+	var cls []string
+	for _, ce := range p.contextsOf(fn, 2) {
+		if ce.Parent == nil {
+			return "", false
+		}
+		s, ok := nonInflating(p, ce, v, self, 1)
+		if !ok {
+			return "in the context " + ce.Parent.Fn.Name() + ": " + s, false
+		}
+		cls = append(cls, s)
+	}
+	return "in every calling context {" + strings.Join(uniq(cls), " | ") + "}", len(cls) > 0
+}
+
 func c06r2(c *Ctx) {
 	const rule = "C06-R2"
 	c.Rule(rule, "every value stored to VMOutput.GasRemaining is 0, GasProvided, a guarded subtraction from those, or a saturating helper result", 20)
@@ -239,6 +276,12 @@ func c06r2(c *Ctx) {
 				self := "*" + e.Term(fa)
 				construct := "GasRemaining = " + e.Term(st.Val)
 				cls, ok := nonInflating(c.P, e, st.Val, self, 0)
+				if !ok && !isExportedAPI(fn) && len(c.P.Callers[fn]) > 0 {
+					// a step that is handed a per-call context object: judge the stored value in every calling context (two levels up)
+					if cls2, ok2 := nonInflatingInCallers(c.P, fn, st.Val, self); ok2 {
+						cls, ok = cls2, true
+					}
+				}
 				if ok {
 					if cls == "constant 0" {
 						c.Triv(rule, FuncName(fn), construct, c.P.InstrPos(st), cls)
